@@ -346,6 +346,13 @@ func genWorldPlan(prop string, master uint64, run int) Plan {
 	switch prop {
 	case "C19":
 		pl.Cfg = neutralConfig(r)
+		cross := 0
+		if r.Chance(1, 8) {
+			// two parsers that may disagree about special schemes; some resolutions go through the other one
+			c2 := []Config{{Profile: "Semantic"}, {Opts: []OptSpec{{N: "special", I: 0}}}, {Opts: []OptSpec{{N: "special", I: 1}}}, {Opts: []OptSpec{{N: "special", I: 3}}}, {}, {Opts: []OptSpec{{N: "special", I: 2}}}}[r.Intn(6)]
+			pl.Cfg2 = &c2
+			cross = 3
+		}
 		if r.Chance(1, 5) {
 			// configuration-independent clauses only, see c19Checker; fail-on-validation-error is left
 			// out: it makes setters abort half-way by design, and the states that leaves behind are not
@@ -368,7 +375,7 @@ func genWorldPlan(prop string, master uint64, run int) Plan {
 			case 0:
 				b.set(u, r.Weighted(sw))
 			case 1:
-				b.resolve(u, r.Weighted([]int{3, 1}))
+				b.resolve(u, []int{0, 0, 0, 1, 3, 3}[r.Weighted([]int{1, 1, 1, 1, cross, cross})])
 			case 2:
 				b.clone(u)
 			case 3:
